@@ -186,7 +186,8 @@ var c02Tokens = []string{
 type C02LongCase struct {
 	Mode  string `json:"mode"`
 	Where string `json:"where"` // only | last | before-dot-line | middle
-	Seg   string `json:"seg"`   // one | octet
+	Seg   string `json:"seg"`   // one | octet | split (two segments, cut at Cut)
+	Cut   int    `json:"cut,omitempty"`
 }
 
 // evalC02Long: the server may refuse such a message and may even close the connection; but if it keeps the connection,
@@ -211,10 +212,43 @@ func evalC02Long(c C02LongCase) *h.Finding {
 	if c.Seg == "octet" {
 		segs = h.PerOctet(in)
 	}
+	if c.Seg == "split" {
+		if c.Cut <= 0 || c.Cut >= len(in) {
+			return nil
+		}
+		segs = h.SplitAt(in, c.Cut)
+	}
+	if c.Seg == "msg" {
+		// the commands up to DATA in one read, the message in two (cut at Cut; 0: in one) - the second one ending exactly
+		// behind the end marker -, everything behind the end marker in a read of its own
+		if c.Cut > len(msg) {
+			return nil
+		}
+		pro := len(hello(c.Mode) + "MAIL FROM:<ok@a.example>\r\nRCPT TO:<ok@b.example>\r\nDATA\r\n")
+		end := pro + len(msg) + 3
+		if c.Cut == 0 {
+			segs = h.SplitAt(in, pro, end)
+		} else {
+			segs = h.SplitAt(in, pro, pro+c.Cut, end)
+		}
+	}
 	o := h.RunS(cfg, be, segs, h.TermEOF)
-	desc := fmt.Sprintf("mode=%s: a message whose %s line has 60 octets (MaxLineLength 40), segmentation %s", c.Mode, c.Where, c.Seg)
+	desc := fmt.Sprintf("mode=%s: a message whose %s line has 60 octets (MaxLineLength 40), segmentation %s (cut %d)", c.Mode, c.Where, c.Seg, c.Cut)
 	if f := o.Sanity("c02", desc); f != nil {
 		return f
+	}
+	if c.Seg == "msg" {
+		// the read that holds the end marker ends exactly behind it: the answer to DATA is due before the server takes
+		// a single octet of what follows (whatever the answer is) - the end marker, and nothing later, ends the message
+		end := len(hello(c.Mode)+"MAIL FROM:<ok@a.example>\r\nRCPT TO:<ok@b.example>\r\nDATA\r\n") + len(msg) + 3
+		for i, r := range o.Replies {
+			if r.Code == 354 && i+1 < len(o.Replies) && i+1 < len(o.ReplyAt) && o.ReplyAt[i+1] > end {
+				return h.F("c02-end-marker-did-not-end-the-message", "%s: the server answered DATA (%s) only after it had taken %d octets of input; the end marker ends at octet %d: something later ended the message", desc, o.Replies[i+1].String(), o.ReplyAt[i+1], end)
+			}
+			if r.Code == 354 {
+				break
+			}
+		}
 	}
 	marks := 0
 	for _, e := range o.Trace {
@@ -359,7 +393,7 @@ func C02(tier string) int {
 	if tier == "thorough" {
 		maxTok = 4
 	}
-	run.Rule = fmt.Sprintf("messages = all sequences of <=%d tokens from %q, terminated by CRLF.CRLF and followed by pipelined marker commands; x backend {reads all, 0, 1, n/2 octets} x {accept, reject} x size limit {none, n/2, n, n+10} x {SMTP, LMTP plain backend, LMTP per-recipient backend} x segmentation {one segment, one octet per segment, every 2-split from 4 octets before to 6 after the end marker; one segment also with MaxLineLength 8192, i.e. above the read-buffer size; every 2-split also from a SLOW peer: 40 virtual seconds of silence in the middle, WriteTimeout 10 s, ReadTimeout 30 min}. Distinct by construction; non-trivial = message contains a bait command or a terminator look-alike. Plus lines of 4090..12288 octets (around the multiples of the 4096-octet buffer), in the middle of the message and as its last line in front of the end marker, with a backend that returns early (after 0, 4, 10 octets), the backend verdict io.ErrUnexpectedEOF on a live connection, and messages with a line longer than MaxLineLength at 4 positions (refused and closed, or the message still ends at its end marker). Oracle: no bait address reaches the backend; replies and backend calls after the final DATA reply equal those the lines after the first true end marker (ref.Unstuff) produce on a connection that just finished a trivial transaction (differential).", maxTok, c02Tokens)
+	run.Rule = fmt.Sprintf("messages = all sequences of <=%d tokens from %q, terminated by CRLF.CRLF and followed by pipelined marker commands; x backend {reads all, 0, 1, n/2 octets} x {accept, reject} x size limit {none, n/2, n, n+10} x {SMTP, LMTP plain backend, LMTP per-recipient backend} x segmentation {one segment, one octet per segment, every 2-split from 4 octets before to 6 after the end marker; one segment also with MaxLineLength 8192, i.e. above the read-buffer size; every 2-split also from a SLOW peer: 40 virtual seconds of silence in the middle, WriteTimeout 10 s, ReadTimeout 30 min}. Distinct by construction; non-trivial = message contains a bait command or a terminator look-alike. Plus lines of 4090..12288 octets (around the multiples of the 4096-octet buffer), in the middle of the message and as its last line in front of the end marker, with a backend that returns early (after 0, 4, 10 octets), the backend verdict io.ErrUnexpectedEOF on a live connection, and messages with a line longer than MaxLineLength at 4 positions, in one segment, per octet, in every 2-split of the conversation and with the message in reads of its own (cut at every position, the last read ending exactly behind the end marker) (refused and closed, or the message still ends at its end marker). Oracle: no bait address reaches the backend; replies and backend calls after the final DATA reply equal those the lines after the first true end marker (ref.Unstuff) produce on a connection that just finished a trivial transaction (differential).", maxTok, c02Tokens)
 	run.Rule += " Also: a message transferred in plaintext (DATA, BDAT, both), STARTTLS with a real handshake, then each of 5 messages with bait and look-alikes via DATA / BDAT LAST inside TLS with NOOP and MAIL pipelined behind it, x 3 modes: the message ends at its own end marker, the commands behind it run, none of its text does."
 	run.Assumptions = []string{"reply codes of the DATA command itself are judged by C04/C06, not here", "the reference run (same server code, trivial message) defines what the follow-up commands do; only its agreement with the run under test is judged"}
 	var msgs [][]int
@@ -473,6 +507,26 @@ func C02(tier string) int {
 				run.Eval(true)
 				if f != nil {
 					run.Violate("c02-long", c, f, func() *h.Finding { return evalC02Long(c) })
+				}
+			}
+			// every 2-split of the conversation: the read in which the limit trips may or may not hold the end marker,
+			// and what follows the marker may or may not have arrived with it
+			for cut := 0; cut < 100; cut++ {
+				c := C02LongCase{Mode: mode, Where: where, Seg: "msg", Cut: cut}
+				f := evalC02Long(c)
+				run.Eval(true)
+				if f != nil {
+					run.Violate("c02-long", c, f, func() *h.Finding { return evalC02Long(c) })
+					break
+				}
+			}
+			for cut := 1; cut < 400; cut++ {
+				c := C02LongCase{Mode: mode, Where: where, Seg: "split", Cut: cut}
+				f := evalC02Long(c)
+				run.Eval(true)
+				if f != nil {
+					run.Violate("c02-long", c, f, func() *h.Finding { return evalC02Long(c) })
+					break
 				}
 			}
 		}
